@@ -772,6 +772,10 @@ def run_case(case, rec=None, known=None):
             return
         shape, nt, classes = shape_of(case, i, info)
         classes = list(classes) + ["step:" + step, "start:" + (start if isinstance(start, str) else "corpus")]
+        if step != "add":
+            classes += ["mod:" + k for k in ("date1904", "noext", "reopen") if mods.get(k)]
+            if mods.get("noext") and i == di:
+                classes.append("replace:creates-new-workbook-part")
         h = core.case_hash([shape, step, bool(info.get("date1904")), case["type"] if step == "add" else kind])
         if nt and h not in rec.nt and len(rec.samples) < rec.MAX_SAMPLES:
             rec.samples.append(core._clip(core.to_jsonable({"step": step, "shape": shape, "type": case["type"]})))
